@@ -228,7 +228,7 @@ def run(res, tier, seed):
     for kind in ("Image::from_slice_u8", "ImageRef::new"):
         for pt in rz.ALL_PT:
             size, align = PT4[pt]
-            for (w, h) in ((3, 2), (1, 1), (5, 4)):
+            for (w, h) in ((3, 2), (1, 1), (5, 4), (0, 3), (2, 0), (0, 0)):
                 for off in range(8):
                     for extra in (0, size, 1):
                         ln = w * h * size + extra
